@@ -16,6 +16,8 @@ def server_procs(sim):
 def is_victim(sim, t):
     if t.role not in VICTIM_ROLES:
         return False
+    if getattr(t.proc, 'tag', None) == 'server':
+        return False
     return t.proc.pid not in getattr(sim, 'server_pids', ())
 
 
@@ -78,10 +80,10 @@ def install_fault(sim, fault):
         elif kind in ('sigkill', 'sigterm'):
             target = t.proc
             if fault.get('target') == 'victim':
-                vs = [v for v in victims(sim) if v.proc.alive]
+                vs = [v for v in victims(sim) if v.proc.alive and v.proc is not sim.root_proc]
                 if not vs:
                     return
-                target = vs[-1].proc
+                target = vs[fault.get('target_index', -1) % len(vs)].proc
             if fault.get('target') == 'server':
                 sp = server_procs(sim)
                 if sp:
@@ -116,7 +118,13 @@ def install_fault(sim, fault):
         sim.block_hooks.append(bh)
         return
     at = fault.get('at', 'dp' if kind == 'terminate' else 'line')
-    sim.add_trigger(thread=fault.get('thread'), nline=fault.get('nline'), ndp=fault.get('ndp'), at=at,
+    pred = None
+    if fault.get('thread') is None and fault.get('role') is None and fault.get('any_thread') is not True:
+        pred = lambda t: is_victim(sim, t)     # noqa
+    if fault.get('victim_index') is not None and fault.get('thread') is None:
+        vi = fault['victim_index']
+        pred = lambda t: is_victim(sim, t) and [v for v in victims(sim)].index(t) == vi     # noqa
+    sim.add_trigger(thread=fault.get('thread'), nline=fault.get('nline'), ndp=fault.get('ndp'), at=at, role=fault.get('role'), pred=pred,
                     qualname=fault.get('qualname'), line=fault.get('line'), dpkind=fault.get('dpkind'),
                     occurrence=fault.get('occ', 1), action=action, label=kind)
 
